@@ -688,12 +688,31 @@ impl DateTimeL {
     #[verifier::external_body]
     pub fn year(&self) -> (r: i32) ensures r as int == local_year(*self) { unimplemented!() }
 }
-pub fn pmy_year(dt_mtime: DateTimeL) -> (r: Year)
-    ensures r as int == local_year(dt_mtime)
-{
-//@cut slice path=src/readers/syslogprocessor.rs impl=SyslogProcessor fn=process_missing_year anchor="let year: Year" take=stmt label=PMY-YEAR
+// the statements of process_missing_year from its start to the one that picks the year; the conversion helpers of
+// src/data/datetime.rs assumed: systemtime_to_datetime(tz, t) is the instant t carried in zone tz; systemtime_year(t) is t's year in UTC
+#[verifier::external_body]
+pub struct FixedOffset { _p: u8 }
+#[verifier::external_body]
+pub struct SystemTime { _p: u8 }
+pub uninterp spec fn year_in_zone(tz: FixedOffset, t: SystemTime) -> int;
+pub uninterp spec fn year_in_utc(t: SystemTime) -> int;
+#[verifier::external_body]
+pub fn systemtime_to_datetime(tz: &FixedOffset, t: &SystemTime) -> (r: DateTimeL)
+    ensures local_year(r) == year_in_zone(*tz, *t), utc_year(r) == year_in_utc(*t)
+{ unimplemented!() }
+#[verifier::external_body]
+pub fn systemtime_year(t: &SystemTime) -> (r: Year) ensures r as int == year_in_utc(*t) { unimplemented!() }
+pub struct SyslogProcessorY { pub tz_offset: FixedOffset }
+impl SyslogProcessorY {
+    #[verifier::external_body]
+    pub fn did_process_missing_year(&self) -> (r: bool) ensures !r { unimplemented!() }   // the function's own debug assertion: called once
+    pub fn pmy_year(&mut self, mtime: SystemTime) -> (r: Year)
+        ensures r as int == year_in_zone(old(self).tz_offset, mtime)
+    {
+//@cut slice path=src/readers/syslogprocessor.rs impl=SyslogProcessor fn=process_missing_year anchor="debug_assert!(!self.did_process_missing_year()" take=range end_anchor="let year: Year" label=PMY-YEAR
 //@end
-    year
+        year
+    }
 }
 
 } // verus!
